@@ -259,10 +259,12 @@ func init() {
 		// a type that differs from `a` only in letter case, and selectors that merely evaluate to 1
 		topOnly("def A { i = 4 }"), topOnly("bind A -> struct"), topOnly("bind a:01 -> struct"), topOnly("bind a:0x1 -> slice"),
 		// selector and target words in each other's place
-		topOnly("bind a:struct -> slice"), topOnly("bind a -> first"), topOnly("bind a:slice -> all"))
+		topOnly("bind a:struct -> slice"), topOnly("bind a -> first"), topOnly("bind a:slice -> all"),
+		// a block of another type whose FIELDS are called TYPE / NAME and hold the bound type's name: still not an `a`
+		topOnly("def c { TYPE = \"a\"; NAME = \"n\"; i = 7 }"))
 	registerSeq(seqSpec{
 		id: "C04",
-		rule: "explicit enumeration of all toplevel statement sequences up to length L (quick 5, thorough 6; rejected prefixes are not extended) over a 30-symbol alphabet: three distinguishable block definitions of two types, bind with every selector (none, 1, first, last, all) x target (struct, slice), " +
+		rule: "explicit enumeration of all toplevel statement sequences up to length L (quick 5, thorough 6; rejected prefixes are not extended) over a 31-symbol alphabet: three distinguishable block definitions of two types, a block of a third type with fields named TYPE / NAME, bind with every selector (none, 1, first, last, all) x target (struct, slice), " +
 			"bind of another / of a missing type, the compile-error forms (:all->struct, :2, :foo, ->oops), a bind inside a block, a block of the bound type nested inside another block (must not be selected), a runtime error. Compared with a trivial reference: binding kind and exact blocks, runtime-error class, rejection, one warning per bind after the first, nil binding without bind. " +
 			"c04.warn: every sequence of 2-3 bind statements (6 forms) after three blocks, run as Interpret, Parse+Execute twice, Dump+LoadProg+Execute, Execute with trace/statistics into a writer of their own, and with a log writer that fails / accepts one byte per write: same blocks, binding, error, and the same warnings on the log writer.",
 		sub: newRefSub("c04.seq"), alpha: a4,
